@@ -244,8 +244,8 @@ theorem genLoopR_accepts (keep : Bool) (mask : Nat) (fixed : Bool) (raw : Option
       · exact h
       · exact absurd hr (hnoraw x hx)
     rw [htodo, frameSize_append, frameSize_noraw _ _ _ seg hnoraw] at hfit hslack
-    obtain ⟨he, hr, hlen⟩ := insertSliced_accepts mask fixed seg hwfseg hpermseg pLeft 0 0 L (Nat.zero_le _) hoseg (by omega)
-    have hpl := insertSliced_pLeft mask fixed seg hwfseg pLeft 0 0 he hr
+    obtain ⟨he, hr, hlen⟩ := insertSliced_accepts mask fixed seg hwfseg hpermseg pLeft (segStart L) 0 L (segStart_le L) hoseg (by omega)
+    have hpl := insertSliced_pLeft mask fixed seg hwfseg pLeft (segStart L) 0 he hr
     rw [he]
     simp only []
     rw [if_neg (by simp [hr])]
@@ -274,8 +274,8 @@ theorem genLoopR_accepts (keep : Bool) (mask : Nat) (fixed : Bool) (raw : Option
       · rw [if_pos hm]
         have hmaskraw : rawLine.id &&& mask = 0 := by rw [hrawid, Nat.and_comm]; exact hm
         rw [if_pos hmaskraw, Nat.zero_add] at hfit hslack
-        obtain ⟨o, du', st'', hrec, holen⟩ := ih (insertSliced mask fixed pLeft 0 0 seg).pLeft ll
-          (nextLastDu keep lastDu (insertSliced mask fixed pLeft 0 0 seg).lastDu) st rest' hfu' hst hwf' hperm' hord'
+        obtain ⟨o, du', st'', hrec, holen⟩ := ih (insertSliced mask fixed pLeft (segStart L) 0 seg).pLeft ll
+          (nextLastDu keep lastDu (insertSliced mask fixed pLeft (segStart L) 0 seg).lastDu) st rest' hfu' hst hwf' hperm' hord'
           (by rw [hpl, hlen]; omega) (by intro hf; subst hf; rw [hpl, hlen]; have := hslack rfl; omega)
         rw [hrec]
         simp only []
@@ -302,14 +302,14 @@ theorem genLoopR_accepts (keep : Bool) (mask : Nat) (fixed : Bool) (raw : Option
         rw [if_neg (by omega)]
         have hgap := frameSize_gap fixed mask sp'.spl hspl rest'
         have hgapf := frameSize_gap false mask sp'.spl hspl rest'
-        obtain ⟨rr, hir, hrr1, hrr2, hrr3⟩ := insertRaw_accepts (insertSliced mask fixed pLeft 0 0 seg).pLeft fixed rawLine.line
+        obtain ⟨rr, hir, hrr1, hrr2, hrr3⟩ := insertRaw_accepts (insertSliced mask fixed pLeft (segStart L) 0 seg).pLeft fixed rawLine.line
           hpr.2.1 sp' hv smp hsmplen (by rw [hpl, hlen]; omega)
           (by intro hf; subst hf; have := hslack rfl; rw [hpl, hlen]; omega)
         rw [hir]
         simp only []
         rw [if_neg (by rw [hrr1]; simp)]
         obtain ⟨o, du', st'', hrec, holen⟩ := ih rr.pLeft ll
-          (nextLastDu keep (nextLastDu keep lastDu (insertSliced mask fixed pLeft 0 0 seg).lastDu) rr.lastDu)
+          (nextLastDu keep (nextLastDu keep lastDu (insertSliced mask fixed pLeft (segStart L) 0 seg).lastDu) rr.lastDu)
           { st with left := 0 } rest' hfu' rfl hwf' hperm' hord'
           (by rw [hrr3, hpl, hlen]; omega) (by intro hf; subst hf; rw [hrr3, hpl, hlen]; have := hslack rfl; omega)
         rw [hrec]
